@@ -27,11 +27,28 @@ ASSUMPTIONS = [
     "from the next round on the fallback sample of the same timestamp is used whenever the primary is missing",
     "when the primary stream is closed, the term continues on the fallback stream; at most one timestamp is lost at the hand-over",
 ]
-BOUNDS = {"quick": "formula = one term with fallback (4 timestamps) and term with fallback + plain term (3 timestamps); every validity pattern, delivery order pattern; primary closed after a symbolic number of samples (or never)",
+BOUNDS = {"quick": "formula = one term with fallback (4 timestamps) and term with fallback + plain term (3-4 timestamps); delivery lock-step, fallback one round early, or an initial burst; fake and real FallbackFormulaMetricFetcher; every validity pattern, delivery order pattern; primary closed after a symbolic number of samples (or never)",
           "thorough": "5 timestamps; additionally a second (plain) term"}
 OUTSIDE = "the real FallbackFormulaMetricFetcher engine start-up (C12 covers its formula); fallback stream errors; more timestamps"
 BUDGET = {"quick": 400, "thorough": 1200}
 PER = timedelta(seconds=1)
+
+
+class StubGenerator:
+    """Stands for a FormulaGenerator: generate() builds a real FormulaEngine over the harness' fallback channel, lazily."""
+
+    namespace = "fallback"
+
+    def __init__(self, chan):
+        self._chan = chan
+        self.engines = []
+
+    def generate(self):
+        from frequenz.sdk.timeseries.formula_engine._formula_engine import FormulaEngine
+
+        e = FormulaEngine.from_receiver("fb", self._chan.new_receiver(limit=100), Power.from_watts)
+        self.engines.append(e)
+        return e
 
 
 class FakeFallback(FallbackMetricFetcher):
@@ -60,21 +77,40 @@ class FakeFallback(FallbackMetricFetcher):
         return self._rx.consume()
 
 
-def make(K, second_term=False, reach=False):
+def make(K, second_term=False, reach=False, mode="lockstep", real_fetcher=False):
+    """mode: 'lockstep' (one primary and one fallback sample per round, order symbolic), 'fb_ahead' (the fallback stream is
+    delivered one round early throughout), 'burst' (the first K timestamps of both streams are delivered at once before the engine
+    runs - the fallback samples for them are gone when the lazily started fallback subscribes - followed by 2 live rounds).
+    real_fetcher: use the real FallbackFormulaMetricFetcher (with a stub generator building a real engine) instead of the fake."""
+    from frequenz.sdk.timeseries.formula_engine._formula_generators._fallback_formula_metric_fetcher import FallbackFormulaMetricFetcher
+
+    KT = K + 2 if mode == "burst" else K   # total number of timestamps
+
     def fn(ex):
-        pvalid = [ex.flag(f"pvalid{k}") for k in range(K)]
-        fvalid = [ex.flag(f"fvalid{k}") for k in range(K)]
-        fb_first = [ex.flag(f"fb_first{k}") for k in range(K)]
-        close_at = ex.choice("close_at", K + 1)  # K = never closed; c < K: the primary delivers samples 0..c-1 and is then closed
-        pv = [ex.real(f"p{k}") for k in range(K)]
-        fv = [ex.real(f"f{k}") for k in range(K)]
-        sv = [ex.real(f"s{k}") for k in range(K)] if second_term else None
+        pvalid = [ex.flag(f"pvalid{k}") for k in range(KT)]
+        fvalid = [ex.flag(f"fvalid{k}") for k in range(KT)] + [True, True]   # (+2: the fallback stream goes on after the last primary sample)
+        fb_first = [ex.flag(f"fb_first{k}") if mode == "lockstep" else True for k in range(KT)]
+
+        def fallback_available(j, f):
+            """was fallback sample j sent after the lazily started fallback subscribed (= while primary sample f was handled)?"""
+            if mode == "lockstep":
+                rnd, after_p = j, not fb_first[j]
+            elif mode == "fb_ahead":
+                rnd, after_p = max(0, j - 1), False
+            else:  # fb_pairs
+                rnd, after_p = (0 if j == 0 else ((j - 1) // 2) * 2), False
+            return rnd > f or (rnd == f and after_p)
+        close_at = ex.choice("close_at", KT + 1) if mode == "lockstep" else KT  # KT = never closed; c: the primary delivers samples 0..c-1 and is then closed
+        pv = [ex.real(f"p{k}") for k in range(KT)]
+        fv = [ex.real(f"f{k}") for k in range(KT)] + [0.0, 0.0]
+        sv = [ex.real(f"s{k}") for k in range(KT)] if second_term else None
 
         async def scenario():
             pc = Broadcast[Sample[Power]](name="p")
             fc = Broadcast[Sample[Power]](name="f")
             sc = Broadcast[Sample[Power]](name="s")
-            fb = FakeFallback(fc)
+            gen = StubGenerator(fc)
+            fb = FallbackFormulaMetricFetcher(gen) if real_fetcher else FakeFallback(fc)
             b = FormulaBuilder("f", Power.from_watts)
             b.push_metric("m", pc.new_receiver(limit=100), nones_are_zeros=False, fallback=fb)
             if second_term:
@@ -83,23 +119,52 @@ def make(K, second_term=False, reach=False):
             eng = b.build()
             rx = eng.new_receiver(max_size=100)
             ps, fs, ss = pc.new_sender(), fc.new_sender(), sc.new_sender()
-            for k in range(K):
-                ts = TS + k * PER
-                async def send_p():
-                    if k < close_at:
-                        await ps.send(Sample(ts, Power.from_watts(pv[k]) if pvalid[k] else None))
-                    elif k == close_at:
-                        await pc.close()
-                async def send_f():
-                    await fs.send(Sample(ts, Power.from_watts(fv[k]) if fvalid[k] else None))
+            async def send_p(k):
+                if k < close_at:
+                    await ps.send(Sample(TS + k * PER, Power.from_watts(pv[k]) if pvalid[k] else None))
+                elif k == close_at:
+                    await pc.close()
+
+            async def send_f(k):
+                if k < KT + 2:
+                    await fs.send(Sample(TS + k * PER, Power.from_watts(fv[k]) if fvalid[k] else None))
+
+            async def send_s(k):
                 if second_term:
-                    await ss.send(Sample(ts, Power.from_watts(sv[k])))
-                if fb_first[k]:
-                    await send_f()
-                    await send_p()
-                else:
-                    await send_p()
-                    await send_f()
+                    await ss.send(Sample(TS + k * PER, Power.from_watts(sv[k])))
+            if mode == "burst":
+                for k in range(K):
+                    await send_s(k)
+                    await send_f(k)
+                    await send_p(k)
+                await asyncio.sleep(1.0)
+                for k in range(K, KT):
+                    await send_s(k)
+                    await send_f(k)
+                    await send_p(k)
+                    await asyncio.sleep(1.0)
+            else:
+                if mode in ("fb_ahead", "fb_pairs"):
+                    await send_f(0)
+                for k in range(KT):
+                    await send_s(k)
+                    if mode == "fb_ahead":
+                        await send_f(k + 1)
+                        await send_p(k)
+                    elif mode == "fb_pairs":
+                        if k % 2 == 0:
+                            await send_f(k + 1)
+                            await send_f(k + 2)
+                        await send_p(k)
+                    elif fb_first[k]:
+                        await send_f(k)
+                        await send_p(k)
+                    else:
+                        await send_p(k)
+                        await send_f(k)
+                    await asyncio.sleep(1.0)
+                if mode != "fb_pairs":
+                    await send_f(KT + 1 if mode == "fb_ahead" else KT)   # the fallback stream continues
                 await asyncio.sleep(1.0)
             outs = []
             while True:
@@ -111,6 +176,8 @@ def make(K, second_term=False, reach=False):
                     break
             try:
                 await eng._stop()
+                for e in gen.engines:
+                    await e._stop()
             except Exception:  # noqa: BLE001
                 pass
             return outs
@@ -120,28 +187,38 @@ def make(K, second_term=False, reach=False):
             ex.check(False, "formula engine spins without emitting (livelock) after the primary stream failed")
             return
         if reach:
-            if close_at < K and len(outs) >= K - 1:
+            if close_at < KT and len(outs) >= KT - 1:
                 ex.check(False, "reach")
             return
-        nfail = [k for k in range(K) if not pvalid[k] or k >= close_at]
+        # the fallback stream goes on after the last primary timestamp; outputs for those later timestamps are not part of the scenario
+        outs = [o for o in outs if (o.timestamp - TS) // PER < KT]
+        nfail = [k for k in range(KT) if not pvalid[k] or k >= close_at]
         f = nfail[0] if nfail else None
         ex.observe("n_outputs", len(outs))
         # expected number of outputs: one per timestamp; a closed primary may cost one timestamp at the hand-over
-        lost_ok = 1 if close_at < K else 0
-        ex.check(K - lost_ok <= len(outs) <= K, f"{len(outs)} samples emitted for {K} timestamps")
+        lost_ok = 1 if close_at < KT else 0
+        ex.check(KT - lost_ok <= len(outs) <= KT, f"{len(outs)} samples emitted for {KT} timestamps")
         prev = None
         for o in outs:
             k = (o.timestamp - TS) // PER
-            ex.check(0 <= k < K and TS + k * PER == o.timestamp, "output timestamp is not an input timestamp")
+            ex.check(0 <= k < KT and TS + k * PER == o.timestamp, "output timestamp is not an input timestamp")
             if prev is not None:
                 ex.check(k > prev, "output timestamps repeat or go backwards")
-                ex.check(k == prev + 1 or (close_at < K and k == prev + 2 and prev < close_at <= k), "a timestamp was skipped")
+                ex.check(k == prev + 1 or (close_at < KT and k == prev + 2 and prev < close_at <= k), "a timestamp was skipped")
             prev = k
             base = sv[k] if second_term else 0.0
             primary_ok = k < close_at and pvalid[k]
             if primary_ok:
                 exp = pv[k] + base
                 why = "primary valid but its value is not used"
+            elif mode == "burst" and k < K:
+                # the fallback samples of the burst were sent before the lazily started fallback subscribed: nothing to fall back to
+                exp = None
+                why = "burst: no fallback sample of this timestamp can exist, output must be None"
+            elif mode in ("fb_ahead", "fb_pairs") and f is not None and k > f and not fallback_available(k, f):
+                # the fallback sample of this timestamp was sent (early) before the fallback was started
+                exp = None
+                why = "the fallback sample of this timestamp was sent before the fallback subscribed, output must be None"
             elif f is not None and k > f or (k >= close_at and f is not None and k >= f and close_at <= f):
                 exp = (fv[k] + base) if fvalid[k] else None
                 why = "primary missing after start-up: fallback sample of the same timestamp not used"
@@ -164,13 +241,19 @@ def make(K, second_term=False, reach=False):
 def instances(tier):
     I = Instance
     out = [I("reach:K3", "make", (3, False, True), "reachability twin", budget_s=100, validate_every=0),
-           I("K3", "make", (3,), "3 timestamps", budget_s=300, validate_every=100)]
-    if tier == "quick":
-        out.append(I("K4", "make", (4,), "4 timestamps", budget_s=600, validate_every=500))
-        out.append(I("K3-2terms", "make", (3, True), "3 timestamps, formula = term with fallback + plain term (misalignment between terms becomes visible)",
-                     budget_s=600, validate_every=500))
-    else:
-        out.append(I("K4", "make", (4,), "4 timestamps", budget_s=600, validate_every=500))
-        out.append(I("K5", "make", (5,), "5 timestamps", budget_s=1500, validate_every=2000, exhaustive=False))
-        out.append(I("K3-2terms", "make", (3, True), "3 timestamps, second plain term", budget_s=600, validate_every=500))
+           I("K3", "make", (3,), "3 timestamps, lock-step rounds, primary may be closed", budget_s=300, validate_every=100),
+           I("K4", "make", (4,), "4 timestamps", budget_s=600, validate_every=500),
+           I("K3-2terms", "make", (3, True), "3 timestamps, formula = term with fallback + plain term (misalignment between terms becomes visible)",
+             budget_s=600, validate_every=500),
+           I("K3-2terms-realfetcher", "make", (3, True, False, "lockstep", True), "same with the real FallbackFormulaMetricFetcher (stub generator, real fallback engine)",
+             budget_s=600, validate_every=500),
+           I("K4-2terms-fb-ahead-realfetcher", "make", (4, True, False, "fb_ahead", True), "fallback stream delivered one round early, real fetcher", budget_s=300, validate_every=100),
+           I("K5-2terms-fb-pairs-realfetcher", "make", (5, True, False, "fb_pairs", True), "fallback samples delivered two at a time every second round (up to 2 unread), real fetcher",
+             budget_s=300, validate_every=100),
+           I("K2+2-2terms-burst", "make", (2, True, False, "burst", False), "first 2 timestamps delivered as a burst before the engine runs, then 2 live rounds",
+             budget_s=300, validate_every=100)]
+    if tier != "quick":
+        out.append(I("K5", "make", (5,), "5 timestamps", budget_s=900, validate_every=2000, exhaustive=False))
+        out.append(I("K3+2-2terms-burst-realfetcher", "make", (3, True, False, "burst", True), "burst of 3 + 2 live rounds, real fetcher", budget_s=600, validate_every=500))
+        out.append(I("K5-2terms-fb-ahead", "make", (5, True, False, "fb_ahead", False), "5 timestamps, fallback one round early", budget_s=600, validate_every=500))
     return out
